@@ -108,7 +108,9 @@ func cmdCheck(args []string) (code int) {
 	prop := fs.String("prop", "", "property id")
 	tier := fs.String("tier", "quick", "quick|thorough")
 	noEv := fs.Bool("no-evidence", false, "do not write the evidence file")
+	dbg := fs.Bool("debug", false, "")
 	fs.Parse(args)
+	debugLoadField = *dbg
 	start := time.Now()
 	def := registry[*prop]
 	if def == nil {
